@@ -1,7 +1,7 @@
 """C14 — assignment qualifiers decide the vote and the write per the documented table.
 
 Spec: spec/Assign.tla (Decide), closed instance spec/MC_Assign.tla: all 256 qualifier subsets x all
-sequences of 3 values of y x all patterns of "rest of line matches" (208 896 behaviours, 835 584
+sequences of 3 values of y x all patterns of "rest of line matches" (241 408 behaviours, 965 632
 states). TLC checks 13 prose invariants (docs/assignment.md, the property statement) against the
 table, and emits every terminal state; each is replayed as one real csvpath
     $f[*][ @x.<qualifiers> = #2   #1 == "y" ]
@@ -18,7 +18,7 @@ INVS = ["NocontribNeutral", "OnmatchGates", "WriteSetsY", "NoWriteKeeps", "Notno
         "LatchNeverNegative", "OnchangeNegative", "IncreaseMonotone", "DecreaseMonotone", "AsboolTruth",
         "PlainAlways", "WritePositive"]
 ORDER = ["onmatch", "latch", "onchange", "increase", "decrease", "notnone", "asbool", "nocontrib"]
-YTEXT = {1: "1", 2: "2", 3: "3", 10: "true", 11: "false"}
+YTEXT = {1: "1", 2: "2", 3: "3", 4: "", 10: "true", 11: "false"}
 
 
 def _cfg(sample):
@@ -107,7 +107,7 @@ def main(tier):
     rep.extra["replayed_behaviours"] = len(recs)
     rep.extra["qualifier_subsets_replayed"] = len({tuple(sorted(r["q"])) for r in recs})
     rep.rule = ("TLC enumerates all 256 qualifier subsets x all sequences of 3 y values from {absent,1,2,3} (+true/false without "
-                "increase/decrease) x {rest matches, not}^3 = 208 896 behaviours and checks the 13 prose invariants on all of them; "
+                "increase/decrease) x {rest matches, not}^3 = 241 408 behaviours and checks the 13 prose invariants on all of them; "
                 + ("every behaviour" if tier != "quick" else "a 1/16 covering sample (all 256 subsets occur)")
                 + " is replayed as a real csvpath over a 3-line file. non-trivial = some line writes or votes negative.")
     rep.assumptions = ["TLC; Assign.tla transcribes docs/assignment.md and the property statement (two formulations checked against each other)",
